@@ -465,6 +465,73 @@ func (a *A) sectionSeenBeforeComplete() {
 	}
 }
 
+// C02 R10: a section header that cannot be read entirely means the unit is NOT complete. In isPSIComplete every return
+// reachable from the failure edge of a fetch is the constant false (cut section headers at the end of the assembled
+// payload belong to a section that is still arriving; judging the unit complete there hands the parser a cut section).
+func (a *A) failedFetchIncomplete() {
+	const rule, key = "R10", "isPSIComplete/failed-fetch-means-incomplete"
+	f := a.anchor(rule, "isPSIComplete")
+	if f == nil {
+		return
+	}
+	n := 0
+	var bad []string
+	for _, b := range f.Blocks {
+		for _, in := range b.Instrs {
+			c, ok := in.(*ssa.Call)
+			if !ok {
+				continue
+			}
+			name, recv, _ := iterMethod(c)
+			if recv == nil || (name != "NextByte" && name != "NextBytes" && name != "NextBytesNoCopy") {
+				continue
+			}
+			n++
+			var ev ssa.Value
+			for _, r := range *c.Referrers() {
+				if e, ok := r.(*ssa.Extract); ok && e.Index == 1 {
+					ev = e
+				}
+			}
+			if ev == nil {
+				bad = append(bad, "the error of the fetch at "+a.ipos(c)+" is discarded")
+				continue
+			}
+			found := false
+			edgeWalk(ev, false, func(nb *ssa.BasicBlock) {
+				found = true
+				for rb := range reachableFrom(nb, nil) {
+					ret := blockReturn(rb)
+					if ret == nil || len(ret.Results) != 1 {
+						continue
+					}
+					for _, l := range pathVals(ret.Results[0], rb, nil, nb) {
+						if l == nil {
+							continue
+						}
+						if cb, ok := ssau.ConstBool(l); ok && !cb {
+							continue
+						}
+						bad = append(bad, fmt.Sprintf("after the fetch at %s failed (a cut section header) the return at %s can still report 'complete'", a.ipos(c), a.ipos(ret)))
+						return
+					}
+				}
+			})
+			if !found {
+				bad = append(bad, "the error of the fetch at "+a.ipos(c)+" is not tested")
+			}
+		}
+	}
+	switch {
+	case n == 0:
+		a.R.Unknown(rule, key, a.fpos(f), "no fetch found in isPSIComplete")
+	case len(bad) > 0:
+		a.R.Bad(rule, key, a.fpos(f), strings.Join(bad, "; "))
+	default:
+		a.R.OK(rule, key, a.fpos(f), fmt.Sprintf("%d fetches: every return reachable from a failed fetch is the constant false", n))
+	}
+}
+
 // succWalk calls f with the block entered when the error ev of fetch c is nil.
 func succWalk(c *ssa.Call, ev ssa.Value, f func(*ssa.BasicBlock)) {
 	edgeWalk(ev, true, f)
